@@ -136,6 +136,7 @@ def create_FORCE_SETS(
                 wien2k_P1_mode=wien2k_P1_mode,
                 symmetry_tolerance=symmetry_tolerance,
                 verbose=(log_level > 0),
+                force_sets_zero_mode=force_sets_zero_mode,
             )
             force_sets = calc_dataset["forces"]
         else:
